@@ -15,6 +15,7 @@ LEVEL = "exploration"
 TECHNIQUE = ('deterministic simulation: header lab of the reference encoder (lengths landed on the 0x0A coincidences) + both-modes differential through every source front end with tape-decided reads')
 LEVEL_NOTE = ('seeded sampling of the reachable 3-byte headers; the classifier itself is a pure function, the simulator supplies real headers and the channel')
 OPTIMIZED_EVERY = 25      # every 25th run is executed in a child interpreter started with python -O
+PBPY_EVERY = 50           # every 50th run (offset 6) is executed with protobuf's pure-Python backend
 COMPILED_EVERY = 25       # every 25th run (offset 12) is executed in a child that imports a mypyc build of the tree
 RUNS = {"quick": 60000, "thorough": 1200000}
 RULE = ("(header) first three bytes of streams produced in both modes by the real writer and by the reference encoder "
